@@ -152,6 +152,21 @@ def run_check(chk: PropertyCheck, tier: str, seed: int):
     except Exception as e:
         broken.append(("translator", "translator crashed: " + "".join(traceback.format_exception_only(type(e), e)).strip()))
 
+    # 1b. source pins: is the code the hand-written model transcribes still the code that is there? ----------
+    try:
+        from . import pins as _pins
+        moved = _pins.check(pid)
+        if moved:
+            broken.append(("source-pin", "modelled source changed (the model was written from other text): "
+                           + "; ".join(f"{f}::{n} ({why})" for f, n, why in moved[:8])
+                           + (f" … and {len(moved) - 8} more" if len(moved) > 8 else "")))
+        else:
+            npins = len(_pins.load(pid).get("items", []))
+            if npins:
+                ctx.log(f"source pins: {npins} modelled function(s)/table(s) unchanged")
+    except Exception as e:
+        broken.append(("source-pin", "source pins could not be evaluated: " + repr(e)))
+
     # 2. build --------------------------------------------------------------------------
     build_ok, log, bt = lean.lake_build(list(chk.lean_modules) + list(chk.drivers))
     ctx.log(f"lake build {'ok' if build_ok else 'FAILED'} in {bt:.1f}s")
